@@ -1,3 +1,542 @@
-(* IdpServerProofs.v — theorems about the IdP server state machine (C19). *)
+(* IdpServerProofs.v — theorems about the IdP server state machine (C19).
+   Everything is proved about IdpServer.step, the function the correspondence
+   check evaluates, for every history, every fault plan and every hashing
+   scheme satisfying the two hypotheses of Section Proofs. *)
 From Saml Require Import Base BaseProofs IdpServer.
 Local Open Scope list_scope.
+
+Ltac dm := match goal with |- context [match ?x with _ => _ end] => destruct x eqn:? end.
+Ltac splits := repeat match goal with |- _ /\ _ => split end.
+Ltac dmh H := match type of H with context [match ?x with _ => _ end] => destruct x eqn:? end.
+
+(* ---------- association lists ---------- *)
+Lemma alookup_aremove_same {A} k (l : list (string * A)) : alookup k (aremove k l) = None.
+Proof.
+  induction l as [|[k' v] r IH]; cbn; [reflexivity|].
+  destruct (String.eqb_spec k k') as [->|D]; [exact IH|]. cbn.
+  destruct (String.eqb_spec k k'); [congruence|exact IH].
+Qed.
+Lemma alookup_aremove_diff {A} k k' (l : list (string * A)) : k <> k' -> alookup k (aremove k' l) = alookup k l.
+Proof.
+  intros D. induction l as [|[k2 v] r IH]; cbn; [reflexivity|].
+  destruct (String.eqb_spec k' k2) as [->|D2].
+  - destruct (String.eqb_spec k k2); [congruence|exact IH].
+  - cbn. destruct (String.eqb_spec k k2); [reflexivity|exact IH].
+Qed.
+Lemma alookup_aremove_some {A} k k' (l : list (string * A)) v : alookup k (aremove k' l) = Some v -> alookup k l = Some v /\ k <> k'.
+Proof.
+  intros E. destruct (String.eqb_spec k k') as [->|D].
+  - rewrite alookup_aremove_same in E. discriminate.
+  - rewrite alookup_aremove_diff in E by exact D. auto.
+Qed.
+Lemma alookup_ainsert_same {A} k (v : A) l : alookup k (ainsert k v l) = Some v.
+Proof. unfold ainsert. cbn. now rewrite String.eqb_refl. Qed.
+Lemma alookup_ainsert_diff {A} k k' (v : A) l : k <> k' -> alookup k (ainsert k' v l) = alookup k l.
+Proof. intros D. unfold ainsert. cbn. destruct (String.eqb_spec k k'); [congruence|]. now apply alookup_aremove_diff. Qed.
+Lemma alookup_ainsert_some {A} k k' (v w : A) l :
+  alookup k (ainsert k' v l) = Some w -> (k = k' /\ w = v) \/ (k <> k' /\ alookup k l = Some w).
+Proof.
+  destruct (String.eqb_spec k k') as [->|D].
+  - rewrite alookup_ainsert_same. intros E; injection E as <-. now left.
+  - rewrite alookup_ainsert_diff by exact D. now right.
+Qed.
+
+(* ---------- fault plans ---------- *)
+(* the first n entries of the plan (as far as it goes) are NoFault *)
+Definition clean (n : nat) (fp : faultplan) : Prop := Forall (fun f => f = NoFault) (firstn n fp).
+
+Lemma clean_0 fp : clean 0 fp.
+Proof. constructor. Qed.
+Lemma clean_S n fp : clean 1 fp -> clean n (skipn 1 fp) -> clean (S n) fp.
+Proof.
+  unfold clean. destruct fp as [|f r]; cbn; [constructor|].
+  intros H1 H2. inversion H1; subst. constructor; [reflexivity|exact H2].
+Qed.
+Lemma skipn_skipn_1 {A} n (l : list A) : skipn n (skipn 1 l) = skipn (S n) l.
+Proof. destruct l; cbn; [now destruct n|reflexivity]. Qed.
+
+Lemma pop_spec fp f fp' : pop fp = (f, fp') -> fp' = skipn 1 fp /\ (f = NoFault -> clean 1 fp).
+Proof.
+  destruct fp as [|x r]; cbn; intros E; injection E as <- <-; (split; [reflexivity|]).
+  - intros _. constructor.
+  - intros ->. unfold clean; cbn. constructor; [reflexivity|constructor].
+Qed.
+
+Lemma store_get_ok {A} (tbl : list (string * A)) k fp a fp' :
+  store_get tbl k fp = (GOk a, fp') -> alookup k tbl = Some a /\ fp' = skipn 1 fp /\ clean 1 fp.
+Proof.
+  unfold store_get. destruct (pop fp) as [f fp1] eqn:P. destruct (pop_spec _ _ _ P) as [-> C].
+  destruct f; intros E.
+  - destruct (alookup k tbl); [|discriminate]. injection E as <- <-. auto.
+  - destruct (alookup k tbl); discriminate.
+  - discriminate.
+Qed.
+Lemma store_get_skip {A} (tbl : list (string * A)) k fp g fp' :
+  store_get tbl k fp = (g, fp') -> fp' = skipn 1 fp.
+Proof.
+  unfold store_get. destruct (pop fp) as [f fp1] eqn:P. destruct (pop_spec _ _ _ P) as [-> C].
+  intros E. now injection E as _ <-.
+Qed.
+Lemma store_get_notfound {A} (tbl : list (string * A)) k fp fp' :
+  store_get tbl k fp = (GNotFound, fp') -> alookup k tbl = None.
+Proof.
+  unfold store_get. destruct (pop fp) as [f fp1]. destruct f; intros E; destruct (alookup k tbl); try discriminate; reflexivity.
+Qed.
+Lemma store_mut_spec fp ok fp' : store_mut fp = (ok, fp') -> fp' = skipn 1 fp /\ (ok = true -> clean 1 fp).
+Proof.
+  unfold store_mut. destruct (pop fp) as [f fp1] eqn:P. destruct (pop_spec _ _ _ P) as [-> C].
+  intros E. injection E as <- <-. split; [reflexivity|]. destruct f; try discriminate. auto.
+Qed.
+
+Lemma profile_eqb_refl p : profile_eqb p p = true.
+Proof.
+  unfold profile_eqb. rewrite !String.eqb_refl. cbn.
+  induction (p_groups p) as [|x r IH]; cbn; [reflexivity|]. now rewrite String.eqb_refl.
+Qed.
+Lemma mem_pair_In a b l : In (a, b) l -> mem_pair a b l = true.
+Proof.
+  induction l as [|[x y] r IH]; cbn; [tauto|]. intros [E|E].
+  - injection E as -> ->. now rewrite !String.eqb_refl.
+  - rewrite IH by exact E. apply orb_true_r.
+Qed.
+Lemma mem_pair_In' a b l : mem_pair a b l = true -> In (a, b) l.
+Proof.
+  induction l as [|[x y] r IH]; cbn; [discriminate|]. intros E. apply orb_true_iff in E as [E|E].
+  - apply andb_true_iff in E as [E1 E2]. apply String.eqb_eq in E1, E2. subst. now left.
+  - right. now apply IH.
+Qed.
+Lemma mem_str_In x l : mem_str x l = true <-> In x l.
+Proof.
+  induction l as [|y r IH]; cbn; [split; [discriminate|tauto]|].
+  unfold seqb. rewrite orb_true_iff, IH, String.eqb_eq. split; intros [E|E]; auto.
+Qed.
+
+Lemma registry_of_store_keys svcs e md : alookup e (registry_of_store svcs) = Some md -> md_entity md = e.
+Proof.
+  induction svcs as [|[id m] r IH]; cbn; [discriminate|]. intros E.
+  apply alookup_ainsert_some in E as [[-> ->]|[_ E]]; [reflexivity|now apply IH].
+Qed.
+
+Section Proofs.
+Variable H : Type.
+Variable hash : string -> H.
+Variable verify : H -> string -> bool.
+Variable empty_hash : H.
+(* bcrypt: a stored hash verifies exactly the password it was made from, and
+   the empty hash of a user stored without a password verifies nothing *)
+Hypothesis verify_hash : forall p p', verify (hash p) p' = true <-> p = p'.
+Hypothesis verify_empty : forall p, verify empty_hash p = false.
+
+Local Notation step' := (step hash verify empty_hash).
+Local Notation trace' := (trace hash verify empty_hash).
+Local Notation run' := (run_hist hash verify empty_hash).
+Local Notation sstate' := (sstate H).
+
+(* ---------- GetSession ---------- *)
+Definition with_session (s : sstate') (u : user H) : sstate' :=
+  {| users := users s; sessions := ainsert (sid (rand s)) (new_session s u) (sessions s); services := services s;
+     shortcuts := shortcuts s; registry := registry s; clock := clock s; rand := rand s + 1;
+     authlog := (sid (rand s), u_name u) :: authlog s |}.
+
+Lemma get_session_inr s parsed c fp s1 se ck fp1 :
+  get_session verify s parsed c fp = (s1, inr (se, ck), fp1) ->
+  (parsed = true /\ nonempty (cr_user c) = true /\
+   exists u, alookup (cr_user c) (users s) = Some u /\ verify (u_hash u) (cr_pw c) = true /\
+             se = new_session s u /\ ck = Some (sid (rand s)) /\ s1 = with_session s u /\
+             fp1 = skipn 2 fp /\ clean 2 fp) \/
+  (parsed && nonempty (cr_user c) = false /\
+   exists id, cr_cookie c = Some id /\ alookup id (sessions s) = Some se /\ clock s <= se_expire se /\
+              ck = None /\ s1 = s /\ fp1 = skipn 1 fp /\ clean 1 fp).
+Proof.
+  unfold get_session. destruct (parsed && nonempty (cr_user c)) eqn:P.
+  - apply andb_true_iff in P as [-> P2].
+    destruct (store_get (users s) (cr_user c) fp) as [g fpa] eqn:G. destruct g as [u| |]; try (intros E; discriminate).
+    destruct (store_get_ok _ _ _ _ _ G) as (Lu & -> & C1).
+    destruct (verify (u_hash u) (cr_pw c)) eqn:V; [|intros E; discriminate].
+    destruct (store_mut (skipn 1 fp)) as [ok fpb] eqn:M. destruct (store_mut_spec _ _ _ M) as [-> C2].
+    destruct ok; [|intros E; discriminate]. intros E. injection E as <- <- <- <-.
+    left. split; [reflexivity|]. split; [exact P2|]. exists u. splits; try assumption; try reflexivity.
+    + destruct fp as [|? [|? ?]]; reflexivity.
+    + apply clean_S; [exact C1|now apply C2].
+  - destruct (cr_cookie c) as [id|]; [|intros E; discriminate].
+    destruct (store_get (sessions s) id fp) as [g fpa] eqn:G. destruct g as [se'| |]; try (intros E; discriminate).
+    destruct (store_get_ok _ _ _ _ _ G) as (Ls & -> & C1).
+    destruct (se_expire se' <? clock s) eqn:X; [intros E; discriminate|]. intros E. injection E as <- <- <- <-.
+    right. split; [reflexivity|]. exists id. splits; try assumption; try reflexivity. lia.
+Qed.
+
+Lemma get_session_inl s parsed c fp s1 rep fp1 :
+  get_session verify s parsed c fp = (s1, inl rep, fp1) ->
+  s1 = s /\ r_cookie rep = None /\ (r_body rep = BLoginForm \/ r_body rep = BError).
+Proof.
+  unfold get_session. repeat dm; intros E; try discriminate; injection E as <- <- <-; cbn; auto.
+Qed.
+
+(* ---------- invariants ---------- *)
+Record Inv (s : sstate') : Prop := {
+  inv_users : forall n u, alookup n (users s) = Some u -> u_name u = n;
+  inv_sess : forall id se, alookup id (sessions s) = Some se -> se_id se = id /\ In (id, se_user se) (authlog s);
+  inv_reg : forall e md, alookup e (registry s) = Some md -> md_entity md = e
+}.
+
+Lemma init_inv now : Inv (init_state H now).
+Proof. constructor; cbn; discriminate. Qed.
+
+Lemma with_session_inv s u : Inv s -> Inv (with_session s u).
+Proof.
+  intros I. constructor; cbn.
+  - apply (inv_users s I).
+  - intros id se E. apply alookup_ainsert_some in E as [[-> ->]|[D E]].
+    + split; [reflexivity|left; reflexivity].
+    + destruct (inv_sess s I id se E) as [A B]. split; [exact A|now right].
+  - apply (inv_reg s I).
+Qed.
+
+Lemma get_session_inv s parsed c fp s1 r fp1 :
+  Inv s -> get_session verify s parsed c fp = (s1, r, fp1) -> Inv s1.
+Proof.
+  intros I E. destruct r as [rep|[se ck]].
+  - apply get_session_inl in E as [-> _]. exact I.
+  - apply get_session_inr in E as [(_ & _ & u & _ & _ & _ & _ & -> & _)|(_ & id & _ & _ & _ & _ & -> & _)];
+      [now apply with_session_inv|exact I].
+Qed.
+
+Lemma step_inv s o fp s' rs fp' : Inv s -> step' s o fp = (s', rs, fp') -> Inv s'.
+Proof.
+  intros I E. destruct o; cbn [step] in E.
+  - (* PutUser *)
+    unfold put_user in E.
+    assert (forall h fpa, (let '(ok, fp2) := store_mut fpa in
+              if ok then (set_users s (ainsert n {| u_name := n; u_hash := h; u_prof := pr |} (users s)), [@rnocontent H], fp2)
+              else (s, [rerr 500], fp2)) = (s', rs, fp') -> Inv s') as K.
+    { intros h fpa. destruct (store_mut fpa) as [[|] fp2]; intros X; injection X as <- <- <-; [|exact I].
+      constructor; cbn; [|apply (inv_sess s I)|apply (inv_reg s I)].
+      intros k u X. apply alookup_ainsert_some in X as [[-> ->]|[_ X]]; [reflexivity|now apply (inv_users s I)]. }
+    destruct pw; [now apply K in E|].
+    destruct (store_get (users s) n fp) as [[old| |] fp1]; [now apply K in E|now apply K in E|].
+    injection E as <- <- <-. exact I.
+  - unfold del_user in E. destruct (store_mut fp) as [[|] fp1]; injection E as <- <- <-; [|exact I].
+    constructor; cbn; [|apply (inv_sess s I)|apply (inv_reg s I)].
+    intros k u X. apply alookup_aremove_some in X as [X _]. now apply (inv_users s I).
+  - unfold get_user in E. repeat dmh E; injection E as <- <- <-; exact I.
+  - unfold list_users in E. repeat dmh E; injection E as <- <- <-; exact I.
+  - (* PutService *)
+    unfold put_service in E. destruct (store_get (services s) id fp) as [g fp1].
+    assert (forall reg1, (forall e m, alookup e reg1 = Some m -> md_entity m = e) ->
+              forall e m, alookup e (ainsert (md_entity md) md reg1) = Some m -> md_entity m = e) as K.
+    { intros reg1 Hr e m X. apply alookup_ainsert_some in X as [[-> ->]|[_ X]]; [reflexivity|now apply Hr]. }
+    assert (forall e m k, alookup e (aremove k (registry s)) = Some m -> md_entity m = e) as K2.
+    { intros e m k X. apply alookup_aremove_some in X as [X _]. now apply (inv_reg s I). }
+    destruct g as [prev| |]; try (injection E as <- <- <-; exact I);
+      destruct (store_mut fp1) as [[|] fp2]; injection E as <- <- <-; try exact I;
+      constructor; cbn; try apply (inv_users s I); try apply (inv_sess s I).
+    + destruct (md_entity prev =? md_entity md)%string; apply K; [apply (inv_reg s I)|intros e m; apply K2].
+    + apply K, (inv_reg s I).
+  - unfold del_service in E. destruct (store_get (services s) id fp) as [[md| |] fp1]; try (injection E as <- <- <-; exact I).
+    destruct (store_mut fp1) as [[|] fp2]; injection E as <- <- <-; [|exact I].
+    constructor; cbn; [apply (inv_users s I)|apply (inv_sess s I)|].
+    intros e m X. apply alookup_aremove_some in X as [X _]. now apply (inv_reg s I).
+  - unfold put_shortcut in E. destruct (store_mut fp) as [[|] fp1]; injection E as <- <- <-; [|exact I].
+    constructor; cbn; [apply (inv_users s I)|apply (inv_sess s I)|apply (inv_reg s I)].
+  - unfold del_shortcut in E. destruct (store_mut fp) as [[|] fp1]; injection E as <- <- <-; [|exact I].
+    constructor; cbn; [apply (inv_users s I)|apply (inv_sess s I)|apply (inv_reg s I)].
+  - unfold login in E. destruct (get_session verify s true c fp) as [[s1 r] fp1] eqn:G.
+    apply (get_session_inv _ _ _ _ _ _ _ I) in G. destruct r as [rep|[se ck]]; injection E as <- <- <-; exact G.
+  - unfold sso in E. destruct (alookup (rq_issuer rq) (registry s)) as [md|]; [|injection E as <- <- <-; exact I].
+    destruct (acs_select md rq); [|injection E as <- <- <-; exact I].
+    destruct (get_session verify s true c fp) as [[s1 r] fp1] eqn:G.
+    apply (get_session_inv _ _ _ _ _ _ _ I) in G. destruct r as [rep|[se ck]]; injection E as <- <- <-; exact G.
+  - unfold launch in E. destruct (store_get (shortcuts s) n fp) as [[sp| |] fp1]; try (injection E as <- <- <-; exact I).
+    destruct (get_session verify s false c fp1) as [[s1 r] fp2] eqn:G.
+    apply (get_session_inv _ _ _ _ _ _ _ I) in G. destruct r as [rep|[se ck]]; [injection E as <- <- <-; exact G|].
+    repeat dmh E; injection E as <- <- <-; exact G.
+  - unfold get_sess in E. repeat dmh E; injection E as <- <- <-; exact I.
+  - unfold del_session in E. destruct (store_mut fp) as [[|] fp1]; injection E as <- <- <-; [|exact I].
+    constructor; cbn; [apply (inv_users s I)| |apply (inv_reg s I)].
+    intros k se X. apply alookup_aremove_some in X as [X _]. now apply (inv_sess s I).
+  - injection E as <- <- <-. constructor; cbn; [apply (inv_users s I)|apply (inv_sess s I)|apply (inv_reg s I)].
+  - injection E as <- <- <-. constructor; cbn; [apply (inv_users s I)|apply (inv_sess s I)|].
+    intros e md. apply registry_of_store_keys.
+Qed.
+
+(* ---------- one step: what an assertion in the reply implies ---------- *)
+(* the propositional reading of [auth_okb] *)
+Definition authenticated (s : sstate') (o : op) (a : assertion) : Prop :=
+  exists parsed c, creds_of o = Some (parsed, c) /\
+    ((parsed = true /\ nonempty (cr_user c) = true /\
+      exists u, alookup (cr_user c) (users s) = Some u /\ verify (u_hash u) (cr_pw c) = true /\
+                a_user a = u_name u /\ a_nameid a = p_email (u_prof u) /\ a_prof a = u_prof u) \/
+     (parsed && nonempty (cr_user c) = false /\
+      exists id se, cr_cookie c = Some id /\ alookup id (sessions s) = Some se /\ clock s <= se_expire se /\
+                    In (id, se_user se) (authlog s) /\
+                    a_user a = se_user se /\ a_nameid a = se_nameid se /\ a_prof a = se_prof se)).
+
+Definition registered (s : sstate') (o : op) (a : assertion) : Prop :=
+  exists md, alookup (a_sp a) (registry s) = Some md /\ md_entity md = a_sp a /\ In (a_acs a) (md_acs md) /\
+    match o with
+    | Sso rq _ => rq_issuer rq = a_sp a /\ (rq_acs rq = "" \/ rq_acs rq = a_acs a)
+    | Launch n _ => alookup n (shortcuts s) = Some (a_sp a)
+    | _ => False
+    end.
+
+Lemma acs_select_spec md rq acs : acs_select md rq = Some acs -> In acs (md_acs md) /\ (rq_acs rq = "" \/ rq_acs rq = acs).
+Proof.
+  unfold acs_select. destruct (nonempty (rq_acs rq)) eqn:N.
+  - destruct (mem_str (rq_acs rq) (md_acs md)) eqn:M; [|discriminate]. intros E; injection E as <-.
+    apply mem_str_In in M. auto.
+  - destruct (rq_acs rq); [|discriminate]. destruct (md_acs md); [discriminate|]. intros E; injection E as <-. split; [now left|now left].
+Qed.
+
+Lemma session_auth s parsed c fp s1 se ck fp1 o a md acs :
+  Inv s -> get_session verify s parsed c fp = (s1, inr (se, ck), fp1) ->
+  creds_of o = Some (parsed, c) -> a = mk_assertion se md acs -> authenticated s o a.
+Proof.
+  intros I G Co ->. exists parsed, c. split; [exact Co|].
+  apply get_session_inr in G as [(-> & N & u & Lu & V & -> & _)|(P & id & Ck & Ls & X & _)].
+  - left. split; [reflexivity|]. split; [exact N|]. exists u. splits; assumption || reflexivity.
+  - right. split; [exact P|]. exists id, se. destruct (inv_sess s I id se Ls) as [_ Hlog].
+    splits; assumption || reflexivity.
+Qed.
+
+Theorem step_assertion s o fp s' rs fp' r a :
+  Inv s -> step' s o fp = (s', rs, fp') -> In r rs -> r_body r = BAssertion a ->
+  authenticated s o a /\ registered s o a /\ exists n, fp' = skipn n fp /\ clean n fp.
+Proof.
+  intros I E Hr Hb. destruct o; cbn [step] in E;
+    try (unfold put_user, del_user, get_user, list_users, put_service, del_service, put_shortcut, del_shortcut,
+                get_sess, del_session in E; repeat dmh E; injection E as <- <- <-;
+         repeat (destruct Hr as [<-|Hr]; [cbn in Hb; discriminate|]); destruct Hr).
+  - (* Login never carries an assertion *)
+    unfold login in E. destruct (get_session verify s true c fp) as [[s1 x] fp1] eqn:G.
+    destruct x as [rep|[se ck]]; injection E as <- <- <-; destruct Hr as [<-|[]]; [|cbn in Hb; discriminate].
+    apply get_session_inl in G as (_ & _ & [B|B]); rewrite B in Hb; discriminate.
+  - (* Sso *)
+    unfold sso in E. destruct (alookup (rq_issuer rq) (registry s)) as [md|] eqn:Lr;
+      [|injection E as <- <- <-; destruct Hr as [<-|[]]; discriminate].
+    destruct (acs_select md rq) as [acs|] eqn:A; [|injection E as <- <- <-; destruct Hr as [<-|[]]; discriminate].
+    destruct (get_session verify s true c fp) as [[s1 x] fp1] eqn:G.
+    destruct x as [rep|[se ck]]; injection E as <- <- <-; destruct Hr as [<-|[]].
+    { apply get_session_inl in G as (_ & _ & [B|B]); rewrite B in Hb; discriminate. }
+    cbn in Hb. injection Hb as <-. pose proof (inv_reg s I _ _ Lr) as Ek.
+    destruct (acs_select_spec _ _ _ A) as [Hin Hq].
+    split; [eapply session_auth; try eassumption; reflexivity|]. split.
+    + exists md. cbn. rewrite Ek. splits; assumption || reflexivity.
+    + apply get_session_inr in G as [(_ & _ & u & _ & _ & _ & _ & _ & -> & C)|(_ & id & _ & _ & _ & _ & _ & -> & C)]; eauto.
+  - (* Launch *)
+    unfold launch in E. destruct (store_get (shortcuts s) n fp) as [g fp1] eqn:Gs.
+    destruct g as [sp| |]; try (injection E as <- <- <-; destruct Hr as [<-|[]]; discriminate).
+    destruct (store_get_ok _ _ _ _ _ Gs) as (Lsc & -> & C1).
+    destruct (get_session verify s false c (skipn 1 fp)) as [[s1 x] fp2] eqn:G.
+    destruct x as [rep|[se ck]].
+    { injection E as <- <- <-; destruct Hr as [<-|[]].
+      apply get_session_inl in G as (_ & _ & [B|B]); rewrite B in Hb; discriminate. }
+    pose proof G as G0.
+    apply get_session_inr in G as [(X & _)|(_ & id & _ & _ & _ & _ & -> & -> & C)]; [discriminate|].
+    destruct (alookup sp (registry s)) as [md|] eqn:Lr; [|injection E as <- <- <-; destruct Hr as [<-|[]]; discriminate].
+    destruct (md_acs md) as [|acs racs] eqn:Ma; injection E as <- <- <-; destruct Hr as [<-|[]]; [discriminate|].
+    cbn in Hb. injection Hb as <-. pose proof (inv_reg s I _ _ Lr) as Ek.
+    split; [eapply session_auth; try eassumption; reflexivity|]. split.
+    + exists md. cbn. rewrite Ek. splits; try assumption; try reflexivity. rewrite Ma. now left.
+    + exists 2%nat. split; [destruct fp as [|? [|? ?]]; reflexivity|now apply clean_S].
+Qed.
+
+(* each request gets exactly one reply; Advance and Restart are not requests *)
+Theorem step_one_reply s o fp : List.length (snd (fst (step' s o fp))) = if is_request o then 1%nat else 0%nat.
+Proof.
+  destruct o; cbn [step is_request];
+    unfold put_user, del_user, get_user, list_users, put_service, del_service, put_shortcut, del_shortcut,
+           login, sso, launch, get_sess, del_session; repeat dm; reflexivity.
+Qed.
+
+(* no reply contains a stored hash: the only reply that carries a user record carries the empty hash *)
+Theorem step_no_hash s o fp r u :
+  In r (snd (fst (step' s o fp))) -> r_body r = BUser u -> u_hash u = empty_hash.
+Proof.
+  destruct o as [n pw pr|n|n| |id md|id|n sp|n|c|rq c|n c|id|id|dt|]; cbn [step].
+  1-8,12-15: unfold put_user, del_user, get_user, list_users, put_service, del_service, put_shortcut, del_shortcut,
+           get_sess, del_session; repeat dm; cbn; intros Hr Hb;
+           repeat (destruct Hr as [<-|Hr]; [cbn in Hb; try discriminate|]); try destruct Hr;
+           try (injection Hb as <-; reflexivity).
+  - unfold login. destruct (get_session verify s true c fp) as [[s1 x] fp1] eqn:G. destruct x as [rep|[se ck]]; cbn;
+      intros [<-|[]] Hb; cbn in Hb; try discriminate.
+    apply get_session_inl in G as (_ & _ & [B|B]); rewrite B in Hb; discriminate.
+  - unfold sso. destruct (alookup (rq_issuer rq) (registry s)) as [md|]; [|cbn; intros [<-|[]] Hb; discriminate].
+    destruct (acs_select md rq); [|cbn; intros [<-|[]] Hb; discriminate].
+    destruct (get_session verify s true c fp) as [[s1 x] fp1] eqn:G. destruct x as [rep|[se ck]]; cbn;
+      intros [<-|[]] Hb; cbn in Hb; try discriminate.
+    apply get_session_inl in G as (_ & _ & [B|B]); rewrite B in Hb; discriminate.
+  - unfold launch. destruct (store_get (shortcuts s) n fp) as [[sp| |] fp1]; cbv beta iota; try (cbn; intros [<-|[]] Hb; discriminate).
+    destruct (get_session verify s false c fp1) as [[s1 x] fp2] eqn:G. destruct x as [rep|[se ck]]; cbv beta iota.
+    + cbn. intros [<-|[]] Hb. apply get_session_inl in G as (_ & _ & [B|B]); rewrite B in Hb; discriminate.
+    + repeat dm; cbn; intros [<-|[]] Hb; discriminate.
+Qed.
+
+(* ---------- histories ---------- *)
+Lemma run_step s o h fp : run' s (o :: h) fp = let '(s', _, fp') := step' s o fp in run' s' h fp'.
+Proof. unfold run_hist. cbn. unfold step_acc at 2. destruct (step' s o fp) as [[s' rs] fp']. reflexivity. Qed.
+
+Lemma run_inv s h fp : Inv s -> Inv (fst (run' s h fp)).
+Proof.
+  revert s fp; induction h as [|o h IH]; intros s fp I; [exact I|].
+  rewrite run_step. destruct (step' s o fp) as [[s' rs] fp'] eqn:E. apply IH. eapply step_inv; eassumption.
+Qed.
+
+Lemma trace_app s h1 h2 fp :
+  trace' s (h1 ++ h2) fp = trace' s h1 fp ++ trace' (fst (run' s h1 fp)) h2 (snd (run' s h1 fp)).
+Proof.
+  revert s fp; induction h1 as [|o h IH]; intros s fp; [reflexivity|].
+  rewrite run_step. cbn [app trace]. destruct (step' s o fp) as [[s' rs] fp'] eqn:E. cbn [app]. now rewrite IH.
+Qed.
+
+(* a successful password authentication: the step that creates session [id] for user [u] *)
+Definition pw_auth_at (s : sstate') (o : op) (id u : string) : Prop :=
+  exists c, creds_of o = Some (true, c) /\ nonempty (cr_user c) = true /\
+    exists usr, alookup (cr_user c) (users s) = Some usr /\ verify (u_hash usr) (cr_pw c) = true /\
+                u_name usr = u /\ id = sid (rand s).
+
+Lemma get_session_log s parsed c fp s1 r fp1 x :
+  get_session verify s parsed c fp = (s1, r, fp1) -> In x (authlog s1) ->
+  In x (authlog s) \/ (parsed = true /\ nonempty (cr_user c) = true /\
+     exists usr, alookup (cr_user c) (users s) = Some usr /\ verify (u_hash usr) (cr_pw c) = true /\
+                 x = (sid (rand s), u_name usr)).
+Proof.
+  intros G Hx. destruct r as [rep|[se ck]].
+  - apply get_session_inl in G as [-> _]. now left.
+  - apply get_session_inr in G as [(-> & N & u & Lu & V & _ & _ & -> & _)|(_ & id & _ & _ & _ & _ & -> & _)]; [|now left].
+    cbn in Hx. destruct Hx as [<-|Hx]; [|now left]. right. split; [reflexivity|]. split; [exact N|]. exists u. auto.
+Qed.
+
+Lemma step_log s o fp s' rs fp' x :
+  step' s o fp = (s', rs, fp') -> In x (authlog s') -> In x (authlog s) \/ pw_auth_at s o (fst x) (snd x).
+Proof.
+  intros E Hx. destruct o; cbn [step] in E;
+    try (unfold put_user, del_user, get_user, list_users, put_service, del_service, put_shortcut, del_shortcut,
+                get_sess, del_session in E; repeat dmh E; injection E as <- <- <-; left; exact Hx).
+  - unfold login in E. destruct (get_session verify s true c fp) as [[s1 r] fp1] eqn:G.
+    assert (s' = s1) as -> by (destruct r as [rep|[se ck]]; now injection E as <- <- <-).
+    destruct (get_session_log _ _ _ _ _ _ _ _ G Hx) as [L|(_ & N & usr & Lu & V & ->)]; [now left|right].
+    exists c. split; [reflexivity|]. split; [exact N|]. exists usr. cbn. auto.
+  - unfold sso in E. destruct (alookup (rq_issuer rq) (registry s)) as [md|]; [|injection E as <- <- <-; now left].
+    destruct (acs_select md rq); [|injection E as <- <- <-; now left].
+    destruct (get_session verify s true c fp) as [[s1 r] fp1] eqn:G.
+    assert (s' = s1) as -> by (destruct r as [rep|[se ck]]; now injection E as <- <- <-).
+    destruct (get_session_log _ _ _ _ _ _ _ _ G Hx) as [L|(_ & N & usr & Lu & V & ->)]; [now left|right].
+    exists c. split; [reflexivity|]. split; [exact N|]. exists usr. cbn. auto.
+  - unfold launch in E. destruct (store_get (shortcuts s) n fp) as [[sp| |] fp1]; try (injection E as <- <- <-; now left).
+    destruct (get_session verify s false c fp1) as [[s1 r] fp2] eqn:G.
+    assert (s' = s1) as -> by (destruct r as [rep|[se ck]]; [now injection E as <- <- <-|repeat dmh E; now injection E as <- <- <-]).
+    destruct (get_session_log _ _ _ _ _ _ _ _ G Hx) as [L|(X & _)]; [now left|discriminate].
+Qed.
+
+Lemma log_sound h : forall s fp x,
+  In x (authlog (fst (run' s h fp))) ->
+  In x (authlog s) \/ exists si oi fpi rsi, In (si, oi, fpi, rsi) (trace' s h fp) /\ pw_auth_at si oi (fst x) (snd x).
+Proof.
+  induction h as [|o h IH]; intros s fp x Hx; [now left|].
+  rewrite run_step in Hx. cbn [trace]. destruct (step' s o fp) as [[s' rs] fp'] eqn:E.
+  destruct (IH _ _ _ Hx) as [L|(si & oi & fpi & rsi & Hin & P)].
+  - destruct (step_log _ _ _ _ _ _ _ E L) as [L'|P]; [now left|].
+    right. exists s, o, fp, rs. split; [now left|exact P].
+  - right. exists si, oi, fpi, rsi. split; [now right|exact P].
+Qed.
+
+(* THE MAIN THEOREM.  In any history h1 ++ o :: h2 run from the empty server
+   under any fault plan: if the reply to o carries an assertion a, then o
+   presented the correct current password of a's user, or a cookie naming a
+   stored, unexpired session of that user which an EARLIER step of the history
+   (in h1) created by a successful password authentication of that user; the
+   target SP is registered at that step with that ACS location; and every
+   fault-plan entry the step consumed was NoFault. *)
+Theorem assertion_only_if_authenticated now h1 o h2 fp :
+  let s := fst (run' (init_state H now) h1 fp) in
+  let fpi := snd (run' (init_state H now) h1 fp) in
+  forall r a, In r (snd (fst (step' s o fpi))) -> r_body r = BAssertion a ->
+    In (s, o, fpi, snd (fst (step' s o fpi))) (trace' (init_state H now) (h1 ++ o :: h2) fp) /\
+    exists parsed c, creds_of o = Some (parsed, c) /\
+      ((parsed = true /\ nonempty (cr_user c) = true /\
+        exists u, alookup (cr_user c) (users s) = Some u /\ verify (u_hash u) (cr_pw c) = true /\ a_user a = u_name u) \/
+       (parsed && nonempty (cr_user c) = false /\
+        exists id se, cr_cookie c = Some id /\ alookup id (sessions s) = Some se /\ clock s <= se_expire se /\
+                      a_user a = se_user se /\
+                      exists sj oj fpj rsj, In (sj, oj, fpj, rsj) (trace' (init_state H now) h1 fp) /\
+                                            pw_auth_at sj oj id (se_user se))).
+Proof.
+  intros s fpi r a Hr Hb.
+  assert (Inv s) as I by (apply run_inv, init_inv).
+  destruct (step' s o fpi) as [[s' rs] fp'] eqn:E. cbn [fst snd] in *.
+  split.
+  { rewrite trace_app. apply in_or_app. right. cbn [trace]. fold s. fold fpi. rewrite E. now left. }
+  destruct (step_assertion _ _ _ _ _ _ _ _ I E Hr Hb) as ((parsed & c & Co & [A|B]) & _).
+  - exists parsed, c. split; [exact Co|left]. destruct A as (P & N & u & Lu & V & Au & _). splits; try assumption. eauto.
+  - exists parsed, c. split; [exact Co|right]. destruct B as (P & id & se & Ck & Ls & X & Hlog & Au & _).
+    split; [exact P|]. exists id, se. splits; try assumption.
+    destruct (log_sound h1 (init_state H now) fp (id, se_user se) Hlog) as [L|K]; [destruct L|exact K].
+Qed.
+
+Theorem registered_now now h fp s o fpi rs r a :
+  In (s, o, fpi, rs) (trace' (init_state H now) h fp) -> In r rs -> r_body r = BAssertion a -> registered s o a.
+Proof.
+  intros Ht Hr Hb.
+  assert (forall hh s0 fp0, Inv s0 -> In (s, o, fpi, rs) (trace' s0 hh fp0) -> Inv s /\ step' s o fpi = (fst (fst (step' s o fpi)), rs, snd (step' s o fpi))) as K.
+  { clear Ht Hr Hb. induction hh as [|o' hh IH]; intros s0 fp0 I Hin; [destruct Hin|].
+    cbn [trace] in Hin. destruct (step' s0 o' fp0) as [[s1 rs1] fp1] eqn:E. destruct Hin as [X|Hin].
+    - injection X as <- <- <- <-. split; [exact I|]. now rewrite E.
+    - eapply IH; [|exact Hin]. eapply step_inv; eassumption. }
+  destruct (K h _ _ (init_inv now) Ht) as [I E].
+  now destruct (step_assertion _ _ _ _ _ _ _ _ I E Hr Hb) as (_ & R & _).
+Qed.
+
+(* the identity in the assertion is the snapshot stored in the session (cookie)
+   or the user's record at this very login (password) *)
+Theorem user_as_at_login s o fp s' rs fp' r a :
+  Inv s -> step' s o fp = (s', rs, fp') -> In r rs -> r_body r = BAssertion a ->
+  exists parsed c, creds_of o = Some (parsed, c) /\
+    ((parsed && nonempty (cr_user c) = true /\ exists u, alookup (cr_user c) (users s) = Some u /\
+        a_user a = u_name u /\ a_nameid a = p_email (u_prof u) /\ a_prof a = u_prof u) \/
+     (parsed && nonempty (cr_user c) = false /\ exists id se, cr_cookie c = Some id /\ alookup id (sessions s) = Some se /\
+        a_user a = se_user se /\ a_nameid a = se_nameid se /\ a_prof a = se_prof se)).
+Proof.
+  intros I E Hr Hb. destruct (step_assertion _ _ _ _ _ _ _ _ I E Hr Hb) as ((parsed & c & Co & [A|B]) & _).
+  - exists parsed, c. split; [exact Co|left]. destruct A as (-> & N & u & Lu & V & X). rewrite N. split; [reflexivity|]. exists u. tauto.
+  - exists parsed, c. split; [exact Co|right]. destruct B as (P & id & se & Ck & Ls & X & Hlog & Y). split; [exact P|]. exists id, se. tauto.
+Qed.
+
+(* a stored session never changes: management calls on users do not touch it,
+   and a new session gets a fresh identifier *)
+Definition ids_fresh (s : sstate') : Prop :=
+  0 <= rand s /\ forall id se, alookup id (sessions s) = Some se -> exists k, 0 <= k < rand s /\ id = sid k.
+
+Lemma sid_inj a b : 0 <= a < 10 ^ 20 -> 0 <= b < 10 ^ 20 -> sid a = sid b -> a = b.
+Proof. unfold sid. intros Ha Hb E. cbn [String.append] in E. injection E as E. now apply dec_inj. Qed.
+
+Lemma step_sessions_stable s o fp s' rs fp' id se se' :
+  ids_fresh s -> rand s < 10 ^ 20 -> step' s o fp = (s', rs, fp') ->
+  alookup id (sessions s) = Some se -> alookup id (sessions s') = Some se' -> se' = se.
+Proof.
+  intros [R0 F] Rb E L L'.
+  assert (forall u, alookup id (sessions (with_session s u)) = Some se' -> se' = se) as K.
+  { intros u X. unfold with_session in X; cbn [sessions] in X. apply alookup_ainsert_some in X as [[-> _]|[_ X]]; [|congruence].
+    destruct (F _ _ L) as (k & Hk & Ek). apply sid_inj in Ek; lia. }
+  assert (forall parsed c fpa s1 r fp1, get_session verify s parsed c fpa = (s1, r, fp1) ->
+            alookup id (sessions s1) = Some se' -> se' = se) as KG.
+  { intros parsed c fpa s1 r fp1 G X. destruct r as [rep|[sx ck]].
+    - apply get_session_inl in G as [-> _]. congruence.
+    - apply get_session_inr in G as [(_ & _ & u & _ & _ & _ & _ & -> & _)|(_ & i & _ & _ & _ & _ & -> & _)]; [now apply (K u)|congruence]. }
+  destruct o; cbn [step] in E;
+    try (unfold put_user, del_user, get_user, list_users, put_service, del_service, put_shortcut, del_shortcut, get_sess in E;
+         repeat dmh E; injection E as <- <- <-; cbn in L'; congruence).
+  - unfold login in E. destruct (get_session verify s true c fp) as [[s1 r] fp1] eqn:G.
+    assert (s' = s1) as -> by (destruct r as [rep|[sx ck]]; now injection E as <- <- <-). eapply KG; eassumption.
+  - unfold sso in E. destruct (alookup (rq_issuer rq) (registry s)) as [md|]; [|injection E as <- <- <-; congruence].
+    destruct (acs_select md rq); [|injection E as <- <- <-; congruence].
+    destruct (get_session verify s true c fp) as [[s1 r] fp1] eqn:G.
+    assert (s' = s1) as -> by (destruct r as [rep|[sx ck]]; now injection E as <- <- <-). eapply KG; eassumption.
+  - unfold launch in E. destruct (store_get (shortcuts s) n fp) as [[sp| |] fp1]; try (injection E as <- <- <-; congruence).
+    destruct (get_session verify s false c fp1) as [[s1 r] fp2] eqn:G.
+    assert (s' = s1) as -> by (destruct r as [rep|[sx ck]]; [now injection E as <- <- <-|repeat dmh E; now injection E as <- <- <-]).
+    eapply KG; eassumption.
+  - unfold del_session in E. destruct (store_mut fp) as [[|] fp1]; injection E as <- <- <-; [|congruence].
+    cbn in L'. apply alookup_aremove_some in L' as [L' _]. congruence.
+Qed.
+
+End Proofs.
